@@ -68,3 +68,15 @@ Theorem tj_mcu_is_dst_imcu :
                    forall tr : bool, (if tr then (8 * dhs, 8 * dvs) else (w, h)) =
                                      (if tr then 8 * vs else 8 * hs, if tr then 8 * hs else 8 * vs)) gen_tjsamp.
 Proof. repeat constructor; intros [|]; reflexivity. Qed.
+
+(* the model's TurboJPEG tables are those of the current source *)
+Theorem tj_tables_from_source :
+  tj_samp_mcu = map (fun e => snd (fst e)) gen_tjsamp /\
+  forallb (fun i => let d := get_dst_subsamp (Z.of_nat i) false XTranspose in
+                    let lum := fun k => fst (fst (nth k gen_tjsamp ((0, 0), (0, 0), (0, 0)))) in
+                    let dst := snd (nth i gen_tjsamp ((0, 0), (0, 0), (0, 0))) in
+                    (fst (lum (Z.to_nat d)) =? fst dst) && (snd (lum (Z.to_nat d)) =? snd dst) &&
+                    (get_dst_subsamp (Z.of_nat i) false XRot180 =? Z.of_nat i) &&
+                    (get_dst_subsamp (Z.of_nat i) true XRot90 =? 3))
+          (seq 0 7) = true.
+Proof. split; vm_compute; reflexivity. Qed.
